@@ -26,7 +26,7 @@ class P(Prop):
             "random well-formed requests (values with ': ', bodies starting with a blank line); gethdr: case-insensitive lookup.  Oracle "
             "(implementation only): well-formed => accepted and equal to the original; bad request line / non-UTF-8 request line => Err; lookup "
             "= first header whose ASCII-lowercased name matches.  Non-trivial = an OK parse with at least one header, distinct by case line.")
-    ASSUMPTIONS = ["case mapping: the model uses the toolchain's own table for every character (GenUnicase); the one context rule of str::to_lowercase, the final sigma, is not modelled and U+03A3 is kept out of compared cases; the Python oracles abstain on the code points whose mapping Python and Rust may not share (%s)" % CASE_HAZARD]
+    ASSUMPTIONS = ["case mapping: the model uses the toolchain's own table for every character (GenUnicase); the one context rule of str::to_lowercase, the final sigma, is modelled with the two character classes regenerated from the toolchain; the Python oracles abstain on the code points whose mapping Python and Rust may not share (%s)" % CASE_HAZARD]
 
     def tok(self, rnd, k, alph=ALPH):
         return bytes(rnd.choice(alph) for _ in range(rnd.randint(0, k)))
@@ -100,8 +100,20 @@ class P(Prop):
                 q = rnd.choice([b"host", b"Host", b"X-a", b"RANGE", b"missing", "ü".encode()])
                 if rnd.random() < 0.25:
                     # letter case outside ASCII: compared with the model (its case mapping is the toolchain's table) and judged by an oracle on
-                    # Latin-1, Cyrillic and Greek without sigma, where Python's and Rust's tables agree
-                    base = rnd.choice(["x-ключ", "größe-é", "ñandú", "x-αβγ", "ÿ-þ", "x-ж1", "ü", "x-ǆ", "ԱԲ", "ⴀⴁ", "ｘ-ａ"])
+                    # Latin-1, Cyrillic and Greek, where Python's and Rust's tables agree
+                    base = rnd.choice(["x-ключ", "größe-é", "ñandú", "x-αβγ", "ÿ-þ", "x-ж1", "ü", "x-ǆ", "ԱԲ", "ⴀⴁ", "ｘ-ａ",
+                                       # the capital sigma: final form at the end of a word only (a cased character before, none after, apostrophes and
+                                       # combining marks skipped), so 'ΟΔΟΣ' and 'οδοσ' are different names for the lookup but 'ΟΔΟΣ' and 'οδος' are one
+                                       "οδος", "οδοσ", "σ", "ς", "ασ-σα", "x-ασ'", "ας.β", "1σ", "ασ\u0301", "σς-σ"])
+                    if rnd.random() < 0.35:
+                        # random contexts for the capital sigma: cased, case-ignorable and other characters around it; the query spells each
+                        # sigma in one of its two small forms, so the lookup succeeds exactly when the context rule picked that form
+                        alpha = ["Σ"] * 6 + ["Α", "α", "a", "Z", "'", ".", ":", "\u0301", "\u00ad", "-", "1", " ", "ʰ", "Ж", "ǅ", "ᾈ", "İ", "\u200d", "𝒜", "ⓐ", "_"]
+                        t = "".join(rnd.choice(alpha) for _ in range(rnd.randint(1, 7)))
+                        qq = "".join((rnd.choice(["σ", "ς", "Σ"]) if c == "Σ" else c) for c in t)
+                        if rnd.random() < 0.5: qq = t.lower() if rnd.random() < 0.7 else qq.lower()
+                        out.append("gethdr %s:%s %s # unicase=1 sigma=1" % (hx(t.encode()), hx(b"v"), hx(qq.encode())))
+                        continue
                     def recase(t): return "".join(rnd.choice([c.lower(), c.upper() if len(c.upper()) == 1 else c]) for c in t)
                     names = [recase(base).encode() if rnd.random() < 0.7 else rnd.choice([b"Host", b"X-A"]) for _ in range(rnd.randint(1, 4))]
                     hspec = ";".join(hx(nm) + ":" + hx(b"v%d" % k) for k, nm in enumerate(names))
